@@ -3,21 +3,35 @@
 use super::*;
 include!("/verif/replay/in_crate/common.rs");
 
-/// C10: GoldenTicket::deserialize_from_net is fed `transaction.data` of peer-supplied golden-ticket transactions
-#[test]
-fn decoder_total() {
+/// C10: GoldenTicket::deserialize_from_net insists on 97 bytes; it is fed `transaction.data` of peer-supplied
+/// golden-ticket transactions. Whatever the payload size, the places that decode it return normally: the transaction is
+/// invalid, the pool ignores it, a block carrying it is refused.
+#[tokio::test]
+#[serial_test::serial]
+async fn callers_check_the_payload_size() {
+    use crate::core::consensus::mempool::Mempool;
+    use crate::core::consensus::transaction::{Transaction, TransactionType};
+    use crate::core::consensus::blockchain::Blockchain;
+    use crate::core::consensus::wallet::Wallet;
+    use crate::core::consensus::slip::Slip;
+    let (pk, sk) = crate::core::util::crypto::generate_keys();
+    let wallet_lock = std::sync::Arc::new(tokio::sync::RwLock::new(Wallet::new(sk, pk)));
+    let blockchain = Blockchain::new(wallet_lock.clone(), 1_000, 0, 60);
     let mut rng = Rng::from_env();
     for len in (0..200usize).chain([97usize].into_iter()) {
-        let b = rng.bytes(len);
-        let prev = std::panic::take_hook();
-        std::panic::set_hook(Box::new(|_| {}));
-        let b2 = b.clone();
-        let r = std::panic::catch_unwind(move || GoldenTicket::deserialize_from_net(&b2));
-        std::panic::set_hook(prev);
-        match r {
-            Err(_) => witness(format!("GoldenTicket::deserialize_from_net panicked on a {}-byte payload", len)),
-            Ok(gt) => { if gt.serialize_for_net() != b { witness(format!("golden ticket round trip differs for {} bytes", len)); } }
-        }
+        let mut tx = Transaction::default();
+        tx.transaction_type = TransactionType::GoldenTicket;
+        let mut i = Slip::default(); i.public_key = pk; i.amount = 0; tx.add_from_slip(i);
+        let mut o = Slip::default(); o.public_key = pk; o.amount = 0; tx.add_to_slip(o);
+        tx.data = rng.bytes(len);
+        tx.sign(&sk);
+        tx.generate(&pk, 0, 0);
+        let accepted = tx.validate(&blockchain.utxoset, &blockchain, true);
+        if accepted && len != 97 { witness(format!("a golden-ticket transaction with a {}-byte payload is accepted by Transaction::validate", len)); }
+        let mut mempool = Mempool::new(wallet_lock.clone());
+        let t2 = tx.clone();
+        let r = futures::FutureExt::catch_unwind(std::panic::AssertUnwindSafe(async { mempool.add_golden_ticket(t2).await; mempool.delete_transactions(&vec![tx.clone()]); })).await;
+        if r.is_err() { witness(format!("the transaction pool panicked on a golden-ticket transaction with a {}-byte payload", len)); }
     }
 }
 
